@@ -7,6 +7,8 @@ mod semver;
 mod ranges;
 mod terms;
 mod offline;
+mod solver;
+mod solver_replay;
 
 use std::io::{BufRead, Write};
 
@@ -60,6 +62,7 @@ fn main() {
                 "ranges" | "rangeord" | "rangeq" => ranges::eval(&sx),
                 "terms" | "bitset" => terms::eval(&sx),
                 "offline" => offline::eval(&sx),
+                "solver" | "faults" => solver::eval(&sx),
                 _ => panic!("unknown domain"),
             };
             out.emit(case, &obs);
@@ -74,6 +77,7 @@ fn main() {
             "ranges" | "rangeord" | "rangeq" => ranges::generate(&mut out, &mut rng, thorough, domain),
             "terms" | "bitset" => terms::generate(&mut out, &mut rng, thorough, domain),
             "offline" => offline::generate(&mut out, &mut rng, thorough),
+            "solver" | "faults" => solver::generate(&mut out, &mut rng, thorough, domain),
             _ => panic!("unknown domain"),
         }
     }
